@@ -277,3 +277,21 @@ CORPUS += [
     V("C04", "ffsp-reward-from-live-counters", _FF, '            end_schedule = td["schedule"] + td["job_duration"].permute(0, 2, 1)\n            # exclude dummy job and determine the makespan per job\n            end_time_max, _ = end_schedule[:, :, : self.num_job].max(dim=-1)\n            # determine the max makespan of all jobs\n            end_time_max, _ = end_time_max.max(dim=-1)',
       '            end_time_max = td["time_idx"] + td["machine_wait_step"].max(dim=-1).values', "C04.g"),
 ]
+
+# ---- round 6, third batch: own decoding loops (C10.g), start sampler (C10.h), start nodes used as selected (C12.d)
+_EASD = "rl4co/models/zoo/eas/decoder.py"
+_MATD = "rl4co/models/zoo/matnet/decoder.py"
+CORPUS += [
+    V("C10", "eas-greedy-argmax-of-raw-logits", _EASD, "        action = decode_logprobs(logp, mask, decode_type=decode_type)\n", "        if \"greedy\" in decode_type:\n            action = logits.argmax(dim=-1)\n        else:\n            action = decode_logprobs(logp, mask, decode_type=decode_type)\n", "C10.g"),
+    V("C10", "matnet-own-multinomial", _MATD, "        job_selected = decode_logprobs(logprobs, mask, decode_type)", "        job_selected = logprobs.exp().multinomial(1).squeeze(1)", "C10.g"),
+    V("C10", "eq-eas-selector-positional-decode-type", _EASD, "        action = decode_logprobs(logp, mask, decode_type=decode_type)\n", "        action = decode_logprobs(logp, mask, decode_type)\n", None),
+    V("C10", "start-sampler-counts-over-the-batch-axis", _OPS, "n_valid_actions = torch.sum(action_mask[:, 1:], 1).min()", "n_valid_actions = torch.sum(action_mask[:, 1:], 0).min()", "C10.h"),
+    V("C10", "start-sampler-softmax-over-the-batch-axis", _OPS, "    ps = torch.softmax(ps, dim=1)\n    selected = torch.multinomial", "    ps = torch.softmax(ps, dim=0)\n    selected = torch.multinomial", "C10.h"),
+    V("C10", "start-sampler-masked-weights-finite", _OPS, "    ps[~action_mask] = -torch.inf\n", "    ps[~action_mask] = -1e4\n", "C10.h"),
+    V("C10", "eq-start-sampler-count-last-axis", _OPS, "n_valid_actions = torch.sum(action_mask[:, 1:], 1).min()", "n_valid_actions = torch.sum(action_mask[:, 1:], -1).min()", None),
+    V("C12", "beam-start-nodes-shifted", _DEC, "            action = env.select_start_nodes(td, num_starts=self.beam_width)", "            action = env.select_start_nodes(td, num_starts=self.beam_width) % self.beam_width", "C12.d"),
+    V("C12", "multistart-start-nodes-plus-one", _DEC, "                        action = env.select_start_nodes(td, num_starts=self.num_starts)", "                        action = env.select_start_nodes(td, num_starts=self.num_starts) + 1", "C12.d"),
+]
+CORPUS += [
+    V("C12", "eas-start-nodes-wrapped-to-the-depot", _EASD, "        action = env.select_start_nodes(td, num_starts + 1)\n", "        action = env.select_start_nodes(td, num_starts + 1) % num_starts\n", "C12.d"),
+]
